@@ -53,6 +53,7 @@ type hookSend struct {
 }
 
 type modelL2 struct {
+	HistQuirk bool // see stepParams
 	SecpVals  bool // the chain's consensus parameters allow secp256k1 validator keys
 	Prop      string
 	Authority string
@@ -84,6 +85,7 @@ func newModelL2(prop, authority string) *modelL2 {
 func (m *modelL2) clone() *modelL2 {
 	o := newModelL2(m.Prop, m.Authority)
 	o.SecpVals = m.SecpVals
+	o.HistQuirk = m.HistQuirk
 	o.Params = m.Params
 	o.Params.BridgeExecutors = append([]string{}, m.Params.BridgeExecutors...)
 	o.Params.FeeWhitelist = append([]string{}, m.Params.FeeWhitelist...)
@@ -617,6 +619,13 @@ func (m *modelL2) stepParams(x *opchildtypes.MsgUpdateParams, bc blockCtx) stepO
 		p.failBecause("params.max-validators-below-current", "max-validators-below-current", "C13")
 	}
 	return stepOut{P: p, OnSuccess: func(res *txRes) []mismatch {
+		if m.Params.HistoricalEntries > 0 && x.Params.HistoricalEntries == 0 {
+			// retention switched from k>0 to 0: the pruning loop inherited from the SDK then starts at a height
+			// without a record and stops at once, so older records stay (DESIGN 14, outside the listed properties).
+			// The generator avoids the switch, but a parameter update built before another one took effect can
+			// still amount to it; the retention rule is not judged for the rest of such a run.
+			m.HistQuirk = true
+		}
 		m.Params = *x.Params
 		m.Params.MinGasPrices = x.Params.MinGasPrices.Sort()
 		return nil
